@@ -409,8 +409,28 @@ func TestC06Run(t *testing.T) {
 		var hung bool
 		var dump string
 		och := make(chan runkit.Outcome, 1)
+		// the measured run is the second one on its registration: an earlier run of the same
+		// registered scenario (its setup passed, it ran two iterations, it was torn down) is over
+		rerun := i%4 == 1
+		var scs *scenarios.Scenarios
+		if rerun {
+			current := func(st *f1testing.T) f1testing.RunFn {
+				st.Cleanup(func() {})
+				return func(*f1testing.T) {}
+			}
+			scs = scenarios.New()
+			scs.Add(&scenarios.Scenario{Name: "verifscenario", ScenarioFn: func(st *f1testing.T) f1testing.RunFn { return current(st) }})
+			first, h, _ := runkit.DoTimeout(runkit.Config{Mode: "users", Scenarios: scs, Ctx: context.Background(),
+				Opts: options.RunOptions{MaxDuration: 2 * time.Second, Concurrency: 1, MaxIterations: 2}}, 60*time.Second)
+			if h || first.Err != nil {
+				o.Fail("run-error", "the earlier run on the registration did not complete")
+				continue
+			}
+			current = scenario
+			o.Count("run", "second run on one registration")
+		}
 		go func() {
-			rcfg := runkit.Config{Mode: mode, Flags: flags, Scenario: scenario, Opts: opts, Ctx: ctx}
+			rcfg := runkit.Config{Mode: mode, Flags: flags, Scenario: scenario, Scenarios: scs, Opts: opts, Ctx: ctx}
 			if longRun {
 				rcfg.Wait = 400 * time.Millisecond // completion timeout shorter than the run, longer than any iteration
 			}
